@@ -356,10 +356,10 @@ hist!(c09_mp_a4_d4, hk_c09_mp_a4_d4, MpB, 4, 4, 2, 2, false);
 hist!(c09_bc_a4_d4, hk_c09_bc_a4_d4, BcB, 4, 4, 1, 1, false);
 hist!(c09_bc_a5_d4, hk_c09_bc_a5_d4, BcB, 5, 4, 2, 2, false);
 // instrumented payload + teardown (C05)
-hist!(c05_bc_a2_d4, hk_c05_bc_a2_d4, BcT, 2, 4, 2, 2, true);
-hist!(c05_mp_a1_d4, hk_c05_mp_a1_d4, MpT, 1, 4, 2, 2, true);
-hist!(c05_bc_a5_d4, hk_c05_bc_a5_d4, BcT, 5, 4, 1, 1, true);
-hist!(c05_mp_a4_d4, hk_c05_mp_a4_d4, MpT, 4, 4, 2, 2, true);
+hist!(c05_bc_a2_d3, hk_c05_bc_a2_d3, BcT, 2, 3, 1, 1, true);
+hist!(c05_mp_a1_d3, hk_c05_mp_a1_d3, MpT, 1, 3, 1, 1, true);
+hist!(c05_bc_a5_d3, hk_c05_bc_a5_d3, BcT, 5, 3, 1, 1, true);
+hist!(c05_mp_a4_d3, hk_c05_mp_a4_d3, MpT, 4, 3, 1, 1, true);
 
 macro_rules! fd {
     ($name:ident, $hk:ident, $f:ty, $cap:literal, $n:literal) => {
